@@ -72,6 +72,9 @@ TEMPLATES = [
     "{v} = {w} = 4\n",
     "{v} = 1\n{v} += 2\n{w}: int\n",
     "for {v} in range(3):\n    pass\n{w} = 0\n",
+    # names whose only top-level assignment statement is an augmented one
+    "from os import *\nsep += '!'\nif sep:\n    {v} = []\nelse:\n    {v} = [0]\n{v} *= 2\n",
+    "import sys\nif sys.argv:\n    {w} = 1\n{w} += 1\n",
     "def {f}():\n    {v} = 'a fairly long constant string'\n    return {v}\n",
     "class {C}:\n    def {m}(self):\n        text = str(1)\n        return text\n\n    def {n}(self):\n        return 'x'\n\n{v} = 3\n",
     "def {f}():\n    result = [1, 2]\n    return result\n\ndef {g}():\n    return 0\n\n{v} = 'aaaaaaaaaaaaaaaaaaaaaaaaa'\n{w} = ['aaaaaaaaaaaaaaaaaaaaaaaaa', 'aaaaaaaaaaaaaaaaaaaaaaaaa', 'aaaaaaaaaaaaaaaaaaaaaaaaa', 'aaaaaaaaaaaaaaaaaaaaaaaaa', 'aaaaaaaaaaaaaaaaaaaaaaaaa']\n",
